@@ -45,3 +45,13 @@ PROPS['C07'] = dict(
     unreached=[],
     explanation='',
 )
+
+PROPS['C06'] = dict(
+    level='other',
+    contracts=['base_osclib'],
+    drivers=[],
+    assumptions=[FLOATS],
+    trusted_base=[],
+    unreached=[],
+    explanation='',
+)
